@@ -33,6 +33,8 @@ ATTEMPTS = [
     ['update', 'armed', 'plain', 1],
     ['inst', 'fn', 'plain', 'nope.txt'], ['cls', 'TB', 'fn', 'plain', 'nope.txt'], ['update', 'fn', 'plain', 'nope.txt'], ['clsupdate', 'TB', 'fn', 'plain', 'nope.txt'],
     ['inst', 'cnum', 'gen', None], ['inst', 'rnum', 'gen', None], ['cls', 'TB', 'rnum', 'gen', None],
+    # a callable that cannot serve as a value generator (a builtin takes no attributes): refused before anything is stored
+    ['inst', 'dyn', 'builtin', None], ['update', 'dyn', 'builtin', None], ['cls', 'TB', 'dyn', 'builtin', None],
     # only a rejection while the parameter has been made constant on the instance (skipped otherwise)
     ['inst', 'k', 'plain', 'zz', 'if-constified'], ['update', 'k', 'plain', 'zz', 'if-constified'],
 ]
@@ -152,7 +154,7 @@ class World:
         a = a[:4] if a[-1] == 'if-constified' else a
         if route in ('inst', 'update'):
             _, pname, kind, val = a
-            v = self.ref(val) if kind == 'ref' else (self.gen if kind == 'gen' else val)
+            v = self.ref(val) if kind == 'ref' else (self.gen if kind == 'gen' else (abs if kind == 'builtin' else val))
             if route == 'inst':
                 return lambda: setattr(self.t, pname, v)
             return lambda: self.t.param.update(**{pname: v})
@@ -160,6 +162,8 @@ class World:
         cls = getattr(self, cname)
         if kind == 'gen':
             val = self.gen
+        if kind == 'builtin':
+            val = abs
         if route == 'cls':
             return lambda: setattr(cls, pname, val)
         return lambda: cls.param.update(**{pname: val})
